@@ -182,9 +182,9 @@ def names (s : State) : List Nat := dedupN (s.keys.map (·.1))
 /-- the (name, peer) pairs `CheckPeers(l)` visits, in visiting order (for one order of the names) -/
 def peersKeys (s : State) (l : List Nat) : List Key := (names s).flatMap (fun n => l.map (fun p => (n, p)))
 
-/-- the snapshot `AllMetrics()`: latest metric of every window, if valid -/
-def allKeys (s : State) : List Key :=
-  s.keys.filter (fun k => match latestOf s k with | some m => m.valid | none => false)
+/-- the snapshot `AllMetrics()`: the latest metric of every window that has one
+    (valid or not, expired or not) -/
+def allKeys (s : State) : List Key := s.keys.filter (fun k => (latestOf s k).isSome)
 
 def checkPeers (P : Params) (i : Nat) (s : State) (l : List Nat) : State × List Alert :=
   (peersKeys s l).foldl (checkOneP P i) (s, [])
